@@ -1068,6 +1068,7 @@ func runTrace16(c *kit.Ctx, tr *Trace16, minimise bool) {
 	f, at, executed := exec16(tr, func(p string) { c.Count(p, 1) })
 	c.Steps(int64(executed))
 	c.Eval(kit.HashJSON(tr), executed >= 3)
+	c.Event(fmt.Sprintf("%x|%d|%v", kit.HashJSON(tr), executed, f != nil))
 	if f == nil {
 		return
 	}
